@@ -118,8 +118,18 @@ class Proto(Scenario):
             if self.ragged and i > 0:
                 keys = keys[:1]
             steps.append((d, {k: ctx.real(f"st{i}_{k}") for k in keys}))
-        with ctx.impl("make_protocol"):
-            protocol = make_protocol(steps)
+        if any(d <= 0 for d, _ in steps):
+            # a step without duration governs no interval: refused, or without any effect on the steps around it
+            try:
+                protocol = make_protocol(steps)
+            except ValueError as e:
+                ctx.note(f"refused: {e}")
+                ctx.true("a protocol with a step of no duration is refused (ValueError)", True)
+                return
+            steps = [(d, v) for d, v in steps if d > 0]
+        else:
+            with ctx.impl("make_protocol"):
+                protocol = make_protocol(steps)
         t_start = reached
         bounds = []
         cum = 0
@@ -225,6 +235,7 @@ def scenarios(tier, seed):
                     scs.append(Proto("decay", lay, "TC", npts=npts, relative=rel, continued=cont))
             scs.append(Proto("chain", lay, "TC", npts=1, relative=cont, continued=cont, swap=True))
         if len(lay) == 2:
+            scs.append(Proto("decay", (lay[0], 0, lay[1]), "P"))
             scs.append(Proto("chain", lay, "P", ragged=True))
             scs.append(Proto("chain", lay, "TC", npts=1, relative=True, continued=True, ragged=True))
             scs.append(Proto("decay", lay, "TC", npts=2, relative=True, continued=True, t_prev=1 / 3))
